@@ -426,6 +426,36 @@ def coq_props(ctx):
     return res
 
 
+def run_coqchk(prop):
+    """coqchk -o on the property's compiled theorem file: re-checks it and all its dependencies with the
+    independent checker and reports the axioms of the whole context."""
+    mod = "Centro." + prop.PROPS_FILE[len("theories/"):-2].replace("/", ".")
+    with CoqLock():
+        r = subprocess.run(["timeout", "1500", "coqchk", "-silent", "-o", "-R", "theories", "Centro", mod],
+                           cwd=COQ, capture_output=True, text=True)
+    out = r.stdout + r.stderr
+    res = {"module": mod, "rc": r.returncode}
+    if r.returncode != 0 or "CONTEXT SUMMARY" not in out:
+        res["error"] = "coqchk failed (rc %s): %s" % (r.returncode, out.strip()[-400:])
+        return res
+    summ = out.split("CONTEXT SUMMARY", 1)[1]
+    def section(title):
+        m = re.search(r"\* " + re.escape(title) + r"[^:]*:(.*?)(?=\n\s*\* |\Z)", summ, re.S)
+        return " ".join(m.group(1).split()) if m else "?"
+    res["axioms"] = section("Axioms")
+    res["type_in_type"] = section("Constants/Inductives relying on type-in-type")
+    res["unsafe_fix"] = section("Constants/Inductives relying on unsafe (co)fixpoints")
+    res["assumed_positive"] = section("Inductives whose positivity is assumed")
+    for k in ("type_in_type", "unsafe_fix", "assumed_positive"):
+        if res[k] != "<none>":
+            res["error"] = "coqchk reports %s: %s" % (k, res[k][:300])
+    axs = [a for a in re.split(r"\s+", res["axioms"]) if a and a != "<none>"]
+    bad = [a for a in axs if not (a.startswith(ALLOWED_AXIOM_PREFIXES) or a in ALLOWED_AXIOMS
+                                  or a in getattr(prop, "ALLOWED_AXIOMS", ()) or ":" in a or a in ("Coq.Floats.PrimFloat.float",))]
+    res["axiom_names"] = axs
+    return res
+
+
 def ensure_extracted(ctx):
     """Compile the OCaml program extracted from the property's model (rebuilt when stale)."""
     vfile, base, entries = ctx.prop.EXTRACT
@@ -606,6 +636,16 @@ def run_check(prop, tier, seed):
     if undisch and not pr["errors"]:
         broken.append("proof: undischarged " + ",".join(undisch))
 
+    # thorough tier: independent re-check of the compiled property file and everything it depends on
+    # with coqchk, and its own list of axioms (copied into the evidence)
+    ctx.coqchk = None
+    if tier == "thorough" and not pr["errors"] and os.environ.get("VERIF_COQCHK", "1") != "0":
+        t = time.time()
+        ctx.coqchk = run_coqchk(prop)
+        ctx.timings["coqchk"] = round(time.time() - t, 1)
+        if ctx.coqchk.get("error"):
+            broken.append("proof: coqchk: " + ctx.coqchk["error"])
+
     # correspondence + checker on the run's cases
     t = time.time()
     cases = prop.generate(ctx)
@@ -743,7 +783,11 @@ def write_evidence(ctx, pr, cases, outs, disagreements, failures, violations, br
         "harness/stage.py (copy of /repo's tree, gcc/g++ -O2 build of the generated C/C++ of the six extension "
         "modules, content-addressed cache), harness/core.py (comparison, canonicalisation), NumPy/SciPy",
         "pyx drift check against pyx_baseline.json: .pyx edits cannot be compiled here (no Cython)",
-    ] + list(getattr(prop, "TRUSTED", []))
+    ] + ([("coqchk -o (independent checker, whole dependency cone of the property file): axioms: %s; "
+           "type-in-type: %s; unsafe fixpoints: %s; assumed positivity: %s" % (
+               ctx.coqchk.get("axioms"), ctx.coqchk.get("type_in_type"), ctx.coqchk.get("unsafe_fix"),
+               ctx.coqchk.get("assumed_positive"))) if not ctx.coqchk.get("error") else "coqchk: " + ctx.coqchk["error"]]
+         if getattr(ctx, "coqchk", None) else []) + list(getattr(prop, "TRUSTED", []))
     cov = {
         "obligations": len(pr["obligations"]),
         "discharged": len(pr["discharged"]),
